@@ -16,6 +16,7 @@ RULE = ("G-int arrangements (as C04) with 1-19 distinct kernel names per type, n
         "with that name. Non-trivial: >= 2 analysed types overlapping in time, or more names than num_kernels. Distinct = hash of "
         "files + parameters.")
 ASSUMPTIONS = ["a kernel / annotation literally named 'others' is merged into the aggregate row: only conservation and the cap are judged for it", "total analysed busy time > 0 (percentages)", "type by the documented name rules"]
+FLOAT_KEYS = ["files"]          # fractional-time-unit workload class (hv/shard.py)
 PLAN = {"quick": {"shards": 16, "cases": 640, "timeout": 600}, "thorough": {"shards": 16, "cases": 8000, "timeout": 3000}}
 FLOORS = {"quick": {"distinct_nontrivial": 150, "type_tables": 350, "per_type_groups": 1200, "named_rows_judged": 2000, "others_rows": 150,
                     "combo_rows_multi": 150, "annotation_breakdowns": 100, "annotation_rows_judged": 300},
